@@ -267,7 +267,113 @@ def check_text(tid, lf_text, text, others, tier):
         shutil.rmtree(base, ignore_errors=True)
 
 
+EDIT_PROGRAM = {
+    'shapes.py': 'import math\n\n\ndef compute_area(radius):\n    return math.pi * radius ** 2\n\n\n'
+                 'class Shape:\n    def describe(self, label):\n        return label\n',
+    'main.py': 'from shapes import compute_area, Shape\n\nvalue = compute_area(2)\n'
+               'Shape().describe("x")\n',
+}
+EDITS = {   # file -> list of (description, transform)
+    'insert-lines-on-top': lambda t: '# header\nVERSION = 1\n\n' + t,
+    'make-async-and-insert': lambda t: t.replace('def compute_area(radius):',
+                                                 'def compute_volume(r):\n    return r\n\n\nasync def compute_area(radius):'),
+    'add-parameter-and-move': lambda t: '\n\n' + t.replace('(radius)', '(radius, scale=1)')
+                                                     .replace('(self, label)', '(self, label, more=0)'),
+}
+
+
+def check_history(task):
+    """Two-step histories: ask, change a file (on disk, mtime advanced) or the buffer, ask again
+    in the same process; every position reported after the change must be faithful to the NEW
+    text.  (Seeded changes that cache name lists / signatures across the change are caught here.)"""
+    import parso
+    jedi = boot.boot()
+    env = boot.environment()
+    name = task['edit']
+    base = os.path.join(boot.scratch_root(), 'c17h', '%d_%s' % (os.getpid(), name))
+    shutil.rmtree(base, ignore_errors=True)
+    os.makedirs(base)
+    out = {'id': 'history:' + name, 'fails': [], 'evals': 0, 'names_checked': 0, 'kinds': [],
+           'variants': 1}
+    try:
+        files = dict(EDIT_PROGRAM)
+        execute.write_tree(base, files)
+        t0 = 1_600_000_000
+        for rel in files:
+            os.utime(os.path.join(base, rel), (t0, t0))
+        project = jedi.Project(base)
+
+        def faithful(n, how, step):
+            mp = n.module_path
+            if mp is None or not str(mp).startswith(base + os.sep) or n.line is None \
+                    or n.type in ('module', 'namespace') or not n.name.isidentifier():
+                return
+            out['names_checked'] += 1
+            with open(mp, encoding='utf-8', newline='') as f:
+                ls = parso.split_lines(f.read(), keepends=True)
+            got = text_at(ls, n.line, n.column, len(n.name))
+            if got != n.name or n.get_line_code() != ls[n.line - 1]:
+                out['fails'].append({
+                    'site': 'stale-position-after-change@%s' % how,
+                    'input': 'history:%s|%s|%s' % (name, step, how),
+                    'detail': {'name': n.name, 'pos': [n.line, n.column], 'found': got,
+                               'line_code': n.get_line_code(), 'file': os.path.basename(str(mp)),
+                               'edit': name, 'text': files}})
+
+        def ask(step):
+            for s in ('compute_area', 'describe', 'Shape', 'compute'):
+                out['evals'] += 2
+                for n in project.search(s):
+                    faithful(n, 'Project.search', step)
+                for n in project.complete_search(s):
+                    faithful(n, 'Project.complete_search', step)
+            main = files['main.py']
+            sc = jedi.Script(main, path=os.path.join(base, 'main.py'), environment=env,
+                             project=project)
+            for li, ln in enumerate(main.split('\n'), 1):
+                for ci, ch in enumerate(ln):
+                    if ch == '(':
+                        out['evals'] += 1
+                        for sg in sc.get_signatures(li, ci + 1):
+                            faithful(sg, 'get_signatures', step)
+                            for p in sg.params:
+                                faithful(p, 'get_signatures.param', step)
+            for (l, c, s) in ident_tokens(main):
+                out['evals'] += 2
+                for n in sc.goto(l, c, follow_imports=True):
+                    faithful(n, 'goto', step)
+                for n in sc.infer(l, c):
+                    faithful(n, 'infer', step)
+            # the same for the library file as the edited buffer
+            lib = files['shapes.py']
+            sl = jedi.Script(lib, path=os.path.join(base, 'shapes.py'), environment=env,
+                             project=project)
+            for n in sl.get_names(all_scopes=True, references=True):
+                faithful(n, 'get_names', step)
+            for li, ln in enumerate(lib.split('\n'), 1):
+                for ci, ch in enumerate(ln):
+                    if ch == '(':
+                        for sg in sl.get_signatures(li, ci + 1):
+                            faithful(sg, 'get_signatures', step)
+        try:
+            ask('before')
+            files['shapes.py'] = EDITS[name](files['shapes.py'])
+            execute.write_tree(base, {'shapes.py': files['shapes.py']})
+            os.utime(os.path.join(base, 'shapes.py'), (t0 + 10, t0 + 10))
+            os.utime(base, (t0 + 10, t0 + 10))
+            ask('after')
+            ask('after-again')
+        except Exception as e:
+            out['fails'].append({'site': canon.exc_site(e), 'input': 'history:%s' % name,
+                                 'detail': {'tb': canon.short_tb(e), 'text': files}})
+        return out
+    finally:
+        shutil.rmtree(base, ignore_errors=True)
+
+
 def _work(task):
+    if task['kind'] == 'history':
+        return check_history(task)
     if task['kind'] == 'pf':
         prog = pf.build(task['src'], task['chain'])
         files = prog.render()
@@ -295,7 +401,8 @@ def _work(task):
 
 
 def _levels(tier):
-    lv = []
+    lv = [('two-step histories: ask, change shapes.py on disk, ask again',
+           [dict(kind='history', edit=e, tier=tier) for e in sorted(EDITS)])]
     core = [c for c in pf.CARRIER_NAMES if c in pf.CORE]
     if tier == 'quick':
         lv.append(('PF depth<=1 x {inst}', [dict(kind='pf', src='inst', chain=[], tier=tier)] +
